@@ -393,41 +393,22 @@ congruence<Number>::operator%(const congruence<Number> &o) const {
     return congruence<Number>::top();
   else {
     /*
-         aZ+b mod 0Z+b':
-             if b'|a then  (a/b')Z + b/b'
-             else          top
-    */
-    if (o.m_a == 0) {
-      if (m_a % o.m_b == 0) {
-        return congruence<Number>(Number(0), m_b % o.m_b);
-      } else {
-        return congruence<Number>(gcd(m_a, o.m_b), m_b);
-      }
-    }
-    /*
-          0Z+b mod a'Z+b':
-           if N<=0           then 0Z+b
-           if (b div N) == 1 then gcd(b',a')Z + b
-           if (b div N) >= 2 then N(b div N)Z  + b
+       The signed remainder x % y = x - y*(x/y) is congruent to x
+       modulo y (and its sign is the one of x).
 
-         where N = a'((b-b') div a') + b'
-    */
-    if (m_a == 0) {
-      Number n(o.m_a * (((m_b - o.m_b) / o.m_a) + o.m_b));
-      if (n <= 0) {
-        return congruence<Number>(m_a, m_b);
-      } else if (m_b == n) {
-        return congruence<Number>(gcd(o.m_b, o.m_a), m_b);
-      } else if ((m_b / n) >= 2) {
-        return congruence<Number>(m_b, m_b);
-      } else {
-        CRAB_ERROR("unreachable");
-      }
-    }
+       0Z+b % 0Z+b' = 0Z + (b % b')
 
-    /*
-      general case: no singleton
+       aZ+b % 0Z+b' = 0Z + 0 if b'|a and b'|b (b' divides every element)
+
+       otherwise, with g = gcd(a, a', b'): g divides every y in a'Z+b',
+       so x % y is in x + gZ, which is included in gZ + b.
     */
+    if (m_a == 0 && o.m_a == 0) {
+      return congruence<Number>(m_b % o.m_b);
+    }
+    if (o.m_a == 0 && m_a % o.m_b == 0 && m_b % o.m_b == 0) {
+      return congruence<Number>(Number(0));
+    }
     return congruence<Number>(gcd(m_a, o.m_a, o.m_b), m_b);
   }
 }
